@@ -35,7 +35,7 @@ import (
 // C15 — no request can crash a node.
 
 type c15env struct {
-	tail []*protobufcompiled.Vertex // vertices a malicious peer keeps streaming after the shaped one
+	tail  []*protobufcompiled.Vertex // vertices a malicious peer keeps streaming after the shaped one
 	w     *core.WorkerCtx
 	rig   *svc.Rig
 	rng   *rand.Rand
